@@ -252,6 +252,11 @@ fn main() {
             let mut rng = rng::Rng::new(o.seed);
             let cases = streams::rules_cases(&mut rng, o.tier == "thorough");
             run_rs_stream(&o, &mut rep, "rulesets", "every sequence of 0..3 (thorough 0..4) rules over 17 rule kinds (4 succeeding, 8 failing one per error class, 1 counting user function, 4 calls of a cacheable function with look-alike arguments: d1.0 / d1.00, f0.0 / f-0.0) exhaustively, plus rulesets of 40 / 70 / 130 / 300 failing rules of each error kind (and of all kinds in turn) followed by succeeding ones, eight 5- / 15- / 30-deep failing rules followed by succeeding ones, random longer rulesets and non-map inputs; compared on the outcome list (length, order, each value / error kind + payload)", false, cases, "full");
+            // many rules calling one cacheable function with many distinct / large look-alike arguments: each rule's outcome is what
+            // the rule gives on its own, however many other calls the evaluation has seen
+            let mut rng2 = rng::Rng::new(o.seed);
+            let many: Vec<rs::RsCase> = streams::cache_cases(&mut rng2, false).into_iter().filter(|c| c.tag.starts_with("many-") || c.tag.starts_with("large-args")).collect();
+            run_rs_stream(&o, &mut rep, "many-calls", "40 / 200 / 1000 distinct arguments of one cacheable function called twice in opposite orders (one rule, and one call per rule over 400 rules); large arguments of equal length differing at one position", false, many, "full");
             serval::run_evaluate(&mut rep, &o.driver, o.workers, o.tier == "thorough", o.seed);
         }
         "C10" => {
